@@ -25,6 +25,13 @@ def sh(cmd, cwd, env=None, timeout=3600):
     return p.returncode, p.stdout + p.stderr
 
 
+def _suite_ok(summary):
+    # baseline: 45 passed, 7 failed (offline). A change may make one of the 7
+    # offline failures pass by coincidence (46/6); none of the 45 may fail.
+    m = re.search(r"(\d+) failed, (\d+) passed", summary)
+    return bool(m) and int(m.group(2)) >= 45 and int(m.group(1)) + int(m.group(2)) == 52
+
+
 def main():
     ap = argparse.ArgumentParser()
     ap.add_argument("wt")
@@ -61,7 +68,13 @@ def main():
             rct, ot = sh([PY, "-m", "pytest", "-q", "-p", "no:cacheprovider", "--timeout=900", "--continue-on-collection-errors"], d, env, 3600)
             m = re.search(r"(\d+) failed, (\d+) passed", ot)
             out["suite_with_change"] = m.group(0) if m else ot[-200:]
-        out["confirmed"] = bool(rc0 == 0 and rcp == 0 and rc1 != 0 and (a.skip_tests or "45 passed" in out.get("suite_with_change", "")))
+            if not _suite_ok(out["suite_with_change"]):
+                # hypothesis deadlines make the suite flaky on a loaded machine: one retry
+                out["suite_first_attempt"] = out["suite_with_change"]
+                rct, ot = sh([PY, "-m", "pytest", "-q", "-p", "no:cacheprovider", "--timeout=900", "--continue-on-collection-errors"], d, env, 3600)
+                m = re.search(r"(\d+) failed, (\d+) passed", ot)
+                out["suite_with_change"] = m.group(0) if m else ot[-200:]
+        out["confirmed"] = bool(rc0 == 0 and rcp == 0 and rc1 != 0 and (a.skip_tests or _suite_ok(out.get("suite_with_change", ""))))
         checks = {}
         for prop in props:
             env2 = dict(os.environ, VERIF_REPO=d)
